@@ -354,7 +354,7 @@ def gen_scenario(v: Dict) -> Dict:
                  "protocols": ["ICMP", "TCP", "UDP"],
                  "thresholds": {"nmne": {"high": 10, "medium": 5, "low": 0}}},
         "agents": [_green(v), _red(v), _blue(v)],
-        "simulation": {"network": {"nmne_config": {"capture_nmne": v.get("nmne", True), "nmne_capture_keywords": ["DELETE"]},
+        "simulation": {"network": {"nmne_config": {"capture_nmne": v.get("capture", v.get("nmne", True)), "nmne_capture_keywords": ["DELETE"]},
                                    "nodes": _nodes(v), "links": _links(v)}},
     }
     if "seed" in v:
@@ -369,7 +369,8 @@ def _variants():
     out.append(dict(base, flatten=True, masking=True, scan=False, traffic=True, access=True, wildcards=["0.0.0.1"]))
     out.append(dict(base, topo="firewall", masking=True, traffic=True, wildcards=["0.0.0.1", "0.0.0.255", "0.0.255.255"]))
     out.append(dict(base, topo="firewall", flatten=True, scan=False, nmne=False, access=True, dur=2))
-    out.append(dict(base, masking=True, nmne=False, dur=2, bandwidth=0.01))
+    # NMNE included in the observation although the scenario does not capture it
+    out.append(dict(base, masking=True, nmne=True, capture=False, dur=2, bandwidth=0.01))
     out.append(dict(base, flatten=True, dur=0, sticky=False, traffic=True))
     for i, v in enumerate(out):
         v["name"] = "gen%d" % i
@@ -377,6 +378,25 @@ def _variants():
 
 
 GEN = _variants()
+
+
+def make_schedule_dir(path, variant=None, episodes=2):
+    """Write an episode-schedule directory (schedule.yaml, base scenario with a YAML alias, one variant file per episode that
+    defines the anchor) for a GEN scenario WITH a router - the shipped small schedules have none. Returns the path."""
+    import yaml
+
+    v = dict(variant or GEN[0])
+    cfg = gen_scenario(dict(v, ep_len=987654))
+    os.makedirs(path, exist_ok=True)
+    base = yaml.safe_dump(cfg, sort_keys=False).replace("987654", "*ep_len")
+    open(os.path.join(path, "base_scenario.yaml"), "w").write(base)
+    sched = {"base_scenario": "base_scenario.yaml", "schedule": {}}
+    for e in range(episodes):
+        fn = "variant_%d.yaml" % e
+        open(os.path.join(path, fn), "w").write("ep_len: &ep_len %d\n" % (6 + e))
+        sched["schedule"][e] = [fn]
+    open(os.path.join(path, "schedule.yaml"), "w").write(yaml.safe_dump(sched, sort_keys=False))
+    return path
 
 
 # ----------------------------------------------------------------------------------------------------------
